@@ -233,17 +233,23 @@ func (gc GeometryCollection) Similar(g Geom, tolerance float64) bool {
 
 // ringSimilar determines whether a and b describe the same ring to within
 // tolerance e, wherever each of them starts. A last vertex that repeats the
-// first one (to within the tolerance) closes the ring and is not compared; b
-// may start at any of its vertices.
+// first one (to within the tolerance) closes the ring; b may start at any of
+// its vertices.
 func ringSimilar(a, b []Point, e float64) bool {
 	if len(a) != len(b) {
 		return false
 	}
-	a, b = openRing(a, e), openRing(b, e)
-	n := len(a)
-	if n != len(b) {
-		return false
+	oa, ob := openRing(a, e), openRing(b, e)
+	// When only one of two rings of the same length is seen to be closed, the
+	// closing vertex of the other one may have moved away from its first
+	// vertex by up to the tolerance each: it is taken off as well.
+	switch {
+	case len(oa) < len(a) && len(ob) == len(b):
+		ob = b[:len(b)-1]
+	case len(ob) < len(b) && len(oa) == len(a):
+		oa = a[:len(a)-1]
 	}
+	n := len(oa)
 	if n == 0 {
 		return true
 	}
@@ -252,15 +258,22 @@ func ringSimilar(a, b []Point, e float64) bool {
 	// vertices are nearly equally small, a perturbation within the tolerance
 	// changes which one is the smallest.)
 	for s := 0; s < n; s++ {
-		if !pointSimilar(a[0], b[s], e) {
+		if !pointSimilar(oa[0], ob[s], e) {
 			continue
 		}
 		match := true
 		for i := 1; i < n; i++ {
-			if !pointSimilar(a[i], b[(s+i)%n], e) {
+			if !pointSimilar(oa[i], ob[(s+i)%n], e) {
 				match = false
 				break
 			}
+		}
+		// A closing vertex is a vertex like any other: it has to be similar to
+		// the vertex the other ring has in its place. a[i] goes with
+		// b[(s+i)%n], so the closing vertex of a (a repeat of a[0]) goes with
+		// b[s] and the closing vertex of b (a repeat of b[0]) with a[(n-s)%n].
+		if match && n < len(a) {
+			match = pointSimilar(a[n], ob[s], e) && pointSimilar(b[n], oa[(n-s)%n], e)
 		}
 		if match {
 			return true
